@@ -518,6 +518,20 @@ func (g *SrcGen) eol() string {
 	return g.nl()
 }
 
+// braceEol: what follows an opening brace up to the end of its line.
+func (g *SrcGen) braceEol() string {
+	switch g.r("brace-eol", 6) {
+	case 0:
+		g.feat("comment:on-brace-line")
+		return g.ws(false) + g.lineCommentShort()
+	case 1:
+		g.feat("comment:on-brace-line")
+		g.feat("comment:inline-then-line-comment")
+		return g.ws(false) + g.inlineComment() + rapid.SampledFrom([]string{"", " ", "\t"}).Draw(g.T, "comment-gap") + g.lineCommentShort()
+	}
+	return g.eol()
+}
+
 func (g *SrcGen) label() string {
 	if g.r("barelabel", 3) == 0 {
 		g.feat("label:bare")
@@ -606,7 +620,7 @@ func (g *SrcGen) block(level, depth int) string {
 		g.feat("block:one-line")
 		b.WriteString(g.ws(false) + g.attr(level+1, depth-1, true) + g.ws(false) + "}")
 	default:
-		b.WriteString(g.eol())
+		b.WriteString(g.braceEol())
 		b.WriteString(g.Body(level+1, depth))
 		b.WriteString(g.indent(level))
 		if g.r("comment-before-close", 6) == 0 {
